@@ -1,6 +1,8 @@
 /- line-protocol handlers for C17 (zipslicer): model result, then ` #` tags computed from Spec.Zip -/
 import Relic.Model.Zip
 import Relic.Spec.Zip
+import Relic.Model.ZipStream
+import Relic.Model.ZipWrite
 namespace Relic.Driver.C17
 open Relic Relic.Zip
 
@@ -57,13 +59,9 @@ def streamMembers : Rd → List File → List String
     | x => [s!"derr:{errTag x}"]
 
 def streamLine (z : Bytes) : String :=
-  match findDirectory ⟨z, false, 0⟩ with
-  | .ok loc =>
-    if loc > z.length then "err tar"    -- Seek beyond the file-system limit / negative size in the tar header
-    else
-    match readWithDirectory z.length (z.drop loc) with
-    | .ok d => s!"ok n={d.files.length} [ {" ; ".intercalate (streamMembers ⟨z, true, 0⟩ d.files)} ]"
-    | x => showRes (fun _ => "") x
+  -- `readStream`: ZipToTar + ReadZipTar (a directory offset beyond the file is "err tar")
+  match readStream z with
+  | .ok d => s!"ok n={d.files.length} [ {" ; ".intercalate (streamMembers ⟨z, true, 0⟩ d.files)} ]"
   | x => showRes (fun _ => "") x
 
 /-! tags from the specification -/
@@ -95,6 +93,37 @@ def misreadWidths (z : Bytes) (a : SpecZip.Archive) (d : Directory) : Bool :=
 def desc24Empty (a : SpecZip.Archive) : Bool :=
   a.members.any fun m => m.entry.usize == 0 && SpecZip.trueWidth a m == some 24
 
+/-- forward order in relic's own measure (`Relic.Zip.forward` on the random-access pass), when that pass succeeds
+    with every extent inside the archive: "1" / "0", else "-" -/
+def fwdTag (z : Bytes) : String :=
+  match read ⟨z, false, 0⟩ with
+  | .ok d =>
+    match dumpAll ⟨z, false, 0⟩ d.files with
+    | .ok outs => if inRange z.length d.files outs then (if forward 0 d.files outs then "1" else "0") else "-"
+    | _ => "-"
+  | _ => "-"
+
+/-- `canonEnds` (the class on which `WriteDirectory` re-emits the original end records) -/
+def canonTag (z : Bytes) (a : SpecZip.Archive) : String :=
+  match read ⟨z, false, 0⟩ with
+  | .ok d => if decide (canonEnds z a (maxReader d.files)) then "1" else "0"
+  | _ => "-"
+
+/-- `Relic.Zip.widthOK` (Proofs/ZipAgree.lean), repeated here because the driver links core modules only -/
+def widthOKd (a : SpecZip.Archive) (m : SpecZip.Member) : Bool :=
+  m.descWidths.isEmpty ||
+  match SpecZip.trueWidth a m with
+  | none => false
+  | some w =>
+    (w != 16 || m.entry.usize != 0xffffffff) &&
+    (w != 24 || decide (m.entry.usize ≥ 0xffffffff) ||
+      m.entry.csize / 2 ^ 32 % 2 ^ 32 != m.entry.usize % 2 ^ 32)
+
+/-- the class `Props.C17.relicReadable` -/
+def readableTag (z : Bytes) (a : SpecZip.Archive) : Bool :=
+  SpecZip.noComment a z && SpecZip.descSigned a && SpecZip.zip64Fixed a && a.members.all (widthOKd a) &&
+    decide (z.length < 2 ^ 63)
+
 def specTags (z : Bytes) : String :=
   -- what GetOriginalDirectory(false) returns once F7b is repaired (Model.Zip.originalDirectorySpec)
   let godfix := match read ⟨z, false, 0⟩ with
@@ -114,20 +143,12 @@ def specTags (z : Bytes) : String :=
        | .ok d => if misreadWidths z a d then ["width-misread"] else []
        | _ => [])
     let orig := s!"{toHex ((z.drop a.ends.cdOff).take (a.ends.first - a.ends.cdOff))}:{toHex ((z.drop a.ends.first).take (a.ends.eocd + 22 - a.ends.first))}"
-    s!"spec=valid flags={",".intercalate flags} st=[ {" ; ".intercalate (a.members.map showSpecMember)} ] orig={orig} godfix={godfix}"
+    let room := a.members.all fun m => decide (m.entry.extra.length + 28 < 65536)
+    s!"spec=valid flags={",".intercalate flags} st=[ {" ; ".intercalate (a.members.map showSpecMember)} ] orig={orig} godfix={godfix} fwd={fwdTag z} fwds={if forwardSpec a 0 a.members then "1" else "0"} canon={canonTag z a} room={if room then "1" else "0"} rdbl={if readableTag z a then "1" else "0"}"
 
 /-! rewrite: the offsets relic's `Mangle`/`AddFile`/`NewFile`/`MakePatch` compute -/
 
-structure NewSpec where
-  name : Bytes
-  extra : Bytes
-  compd : Bytes
-  usize : Nat
-  crc : Nat
-  deflate : Bool
-  useDesc : Bool
-
-def parseNew : Nat → List String → Option (List NewSpec)
+def parseNew : Nat → List String → Option (List NewMember)
   | 0, _ => some []
   | n + 1, a :: b :: c :: u :: k :: dfl :: ud :: rest => do
     let name ← fromHex a
@@ -139,19 +160,27 @@ def parseNew : Nat → List String → Option (List NewSpec)
     pure (⟨name, extra, compd, us, crc, dfl = "1", ud = "1"⟩ :: ns)
   | _, _ => none
 
-def rewriteLine (z : Bytes) (mask : List Bool) (force : Bool) (mtime mdate : Nat) (news : List NewSpec) : String :=
+/-- the output of `Relic.Zip.rewriteWith` (Model/ZipWrite.lean); errors classified by the phase that failed -/
+def rewriteLine (z : Bytes) (mask : List Bool) (force : Bool) (mtime mdate : Nat) (news : List NewMember) : String :=
   let r : Rd := ⟨z, false, 0⟩
   match read r with
   | .ok d =>
     match mangle r d.files mask { files := [], size := 0, dirLoc := 0 } [] with
-    | .ok (nd, dels) =>
-      let (body, nd) := news.foldl (fun (acc : Bytes × Directory) n =>
-        let (b, nd') := newFile acc.2 n.name n.extra n.compd n.usize n.crc mtime mdate n.deflate n.useDesc
-        (acc.1 ++ b, nd')) ([], nd)
-      let (cd, eod, _) := writeDirectory nd force
-      s!"ok {toHex (dropRanges z d.dirLoc dels ++ body ++ cd ++ eod)}"
+    | .ok _ =>
+      match rewriteWith z mask force mtime mdate news with
+      | .ok out => s!"ok {toHex out}"
+      | x => "err " ++ errTag x
     | x => "err mangle-" ++ errTag x
   | x => "err read-" ++ errTag x
+
+/-- the conclusion of `rewrite_roundtrip_small` evaluated on this instance (model output read by `Spec.Zip`):
+    "ok" / "bad", or "-" when the model produced no output -/
+def rtTag (z : Bytes) (mask : List Bool) (force : Bool) (mtime mdate : Nat) (news : List NewMember) : String :=
+  match rewriteWith z mask force mtime mdate news, specView z with
+  | .ok out, some vin =>
+    let kept := (vin.zipIdx.filter fun (_, i) => !(mask.getD i false)).map (·.1)
+    if specView out == some (kept ++ news.map newView) then "ok" else "bad"
+  | _, _ => "-"
 
 /-- `WriteDirectory` on a synthetic directory (exported fields only): `count` members, the first one
     with the given version/sizes/offset, the others empty; reaches the real 16/32-bit thresholds -/
@@ -163,6 +192,14 @@ def wdLine (count dirLoc : Nat) (force : Bool) (reader cs us off : Nat) : String
   let (cd, eod, d') := writeDirectory { files := files, size := 0, dirLoc := dirLoc } force
   let again := (writeDirectory d' force).1
   s!"ok {cd.length} {ck cd} {toHex eod} {toHex (cd.take 120)} {again.length}"
+
+/-- `WriteDirectory` on a one-member synthetic directory whose member carries an extra field of `n` bytes 0x41 -/
+def wdxLine (n cs us off : Nat) : String :=
+  let f0 : File := { creator := 45, reader := 20, flags := 0, method := 0, mtime := 0, mdate := 0, crc := 0, csize := cs,
+                     usize := us, name := [97], extra := List.replicate n 0x41, comment := [], iattrs := 0, eattrs := 0,
+                     offset := off, raw := [] }
+  let (cd, eod, _) := writeDirectory { files := [f0], size := 0, dirLoc := 1000 } false
+  s!"ok {cd.length} {ck cd} {toHex eod} {toHex (cd.take 80)}"
 
 def handle : List String → String
   -- an archive of n plain members plus k added through AddFile / NewFile / WriteDirectory: by zip64_thresholds /
@@ -176,6 +213,10 @@ def handle : List String → String
     match c.toNat?, dl.toNat?, rv.toNat?, cs.toNat?, us.toNat?, off.toNat? with
     | some c, some dl, some rv, some cs, some us, some off => wdLine c dl (fo = "1") rv cs us off
     | _, _, _, _, _, _ => "bad-op"
+  | ["wdx", n, cs, us, off] =>
+    match n.toNat?, cs.toNat?, us.toNat?, off.toNat? with
+    | some n, some cs, some us, some off => wdxLine n cs us off
+    | _, _, _, _ => "bad-op"
   | ["read", hex] =>
     match fromHex hex with
     | some z => s!"R {readLine z} | S {streamLine z} #{specTags z}"
@@ -186,7 +227,7 @@ def handle : List String → String
       match parseNew k rest with
       | some news =>
         let m := if mask = "-" then [] else mask.toList.map (· == '1')
-        s!"{rewriteLine z m (force = "1") mt md news} #{specTags z}"
+        s!"{rewriteLine z m (force = "1") mt md news} #{specTags z} rt={rtTag z m (force = "1") mt md news}"
       | none => "bad-op"
     | _, _, _, _ => "bad-op"
   | _ => "bad-op"
